@@ -34,24 +34,6 @@ namespace w_values
         )
     );
 
-    // move-only values, nonterminal and typed term
-    constexpr typed_term uword(word, [](std::string_view sv) { return std::make_unique<std::string>(sv); });
-    using uptr = std::unique_ptr<std::string>;
-    constexpr nterm<uptr> uitem("uitem");
-    constexpr nterm<std::vector<uptr>> ulist("ulist");
-
-    constexpr parser pu(
-        ulist,
-        terms(uword, ','),
-        nterms(ulist, uitem),
-        rules(
-            ulist() >= create<std::vector<uptr>>{},
-            ulist(ulist, uitem) >= emplace_back<1, 2>{},
-            uitem(uword) >= [](uptr p) { return p; },
-            uitem(uword, ',') >= construct<uptr, 1>{}
-        )
-    );
-
     void all()
     {
         std::stringstream ss;
@@ -59,10 +41,6 @@ namespace w_values
         (void)ps.parse(cstring_buffer("a,b"));          // third parser_value_stack_type specialisation
         (void)ps.parse(string_buffer("a,b"), ss);
         (void)ps.parse(parse_options{}.set_verbose(), string_view_buffer(text), ss);
-        (void)pu.parse(cstring_buffer("a b"));
-        (void)pu.parse(string_buffer("a b"), ss);
-        (void)pu.parse(parse_options{}.set_verbose(), string_view_buffer(text), ss);
         ps.write_diag_str(ss);
-        pu.write_diag_str(ss);
     }
 }
